@@ -462,7 +462,13 @@ func racePass(c *core.Ctx) {
 			}
 		}
 	}
-	raceRun(c, bin, "worker", "c20race")
+	if !raceRun(c, bin, "worker", "c20race") {
+		return
+	}
+	// a long-running process: many thousand DISTINCT inputs per rule from several goroutines while others keep
+	// asking for the same few (whatever bounds, evicts or rebuilds the memo does so under their feet)
+	raceRun(c, bin, "worker", "c20many")
+	c.Bound("race_pass_distinct_inputs_per_rule", 8*3000)
 }
 
 func raceRun(c *core.Ctx, bin string, args ...string) bool {
